@@ -107,12 +107,28 @@ func cmdFunc(args []string) {
 			continue
 		}
 		gen := time.Since(t0)
-		solveAll(P, r.Obls, *timeout, false, 5)
+		solveAll(P, r.Obls, *timeout, false, 3)
 		bad := 0
+		// return-path covers are judged per return position: one feasible path suffices
+		coverOK := map[string]bool{}
+		for _, o := range r.Obls {
+			if o.Cover && o.Result.Verdict != "unsat" {
+				coverOK[o.Name] = true
+			}
+		}
+		reportedDead := map[string]bool{}
 		for _, o := range r.Obls {
 			ok := o.Result.Verdict == "unsat"
 			if o.Cover {
-				ok = o.Result.Verdict != "unsat"
+				ok = coverOK[o.Name]
+				if !ok && reportedDead[o.Name] {
+					continue
+				}
+				reportedDead[o.Name] = true
+			}
+			if !ok && o.Cover {
+				fmt.Printf("  DEAD     %-60s (no feasible path) %s\n", o.Name, o.Pos)
+				continue
 			}
 			if !ok {
 				bad++
